@@ -1348,6 +1348,24 @@ def run : State → List (Nat × Cmd) → State × List Reply
   | s, (t, c) :: cs =>
     ((run (step s t c).1 cs).1, (step s t c).2 :: (run (step s t c).1 cs).2)
 
+/-! ## scripts
+
+EVAL of a script that is a straight sequence of `redis.call(…)` on data commands followed by
+`return 'done'`.  Redis' own semantics (scripting.c / script_lua.c, "Lua scripts … are not rolled
+back"): every call runs as the command itself at the same instant, the first call that replies with
+an error raises it, the script stops there and EVAL's reply is that error; what the earlier calls
+wrote stays written. -/
+
+/-- the reply of a script whose calls all succeed: `return 'done'` -/
+def scriptDone : Reply := .bulk [100, 111, 110, 101]
+
+def stepScript (s : State) (now : Nat) : List Cmd → State × Reply
+  | [] => (s, scriptDone)
+  | c :: cs =>
+    match (step s now c).2 with
+    | .err e => ((step s now c).1, .err e)
+    | _ => stepScript (step s now c).1 now cs
+
 /-- the model's transcription of `Command::is_read_only` (src/redis/command.rs), restricted to
     the modelled commands; compared with the real classification on every op by the harness -/
 def isReadOnly : Cmd → Bool
